@@ -257,6 +257,7 @@ def pegStep (P : SRunner) (N : SNextRunner) (K : SMkRunner) (L : Nat) : SRunner 
   | .group gs => sGroup P env ctx gs s [] []
   | .groupArr gs => sGroup P env ctx gs s [] []
   | .or_ a b => sChoice P env ctx s [a, b]
+  | .choice .tuple [] => .panic pIllTyped
   | .choice _ gs => sChoice P env ctx s gs
   | .orNot a =>
     match P env a s ctx with
